@@ -58,7 +58,8 @@ def check(ctx):
             out = os.path.join(d, "norec%d.ndjson" % k)
             rc, log, to = ctx.go_run(drv, "TestVerifCacheStress", timeout=600,
                                      env={"VERIF_OUT": out, "VERIF_RECORD": "0", "VERIF_SEED": ctx.seed * 100 + k,
-                                          "VERIF_PRELOAD": k % 2,     # odd rounds: a restarted collector (cache loaded from an aged file)
+                                          "VERIF_PRELOAD": k % 2,     # odd rounds: a restarted collector (cache loaded from an aged file:
+                                          "VERIF_AGE_S": [40 * 86400, 3600, 2 * 86400, 400 * 86400][(k // 2) % 4],   # 40 days, an hour, 2 days, 400 days old)
                                           "VERIF_WORKERS": 8, "VERIF_OPS": 400 if thorough else 200, "VERIF_DUMPS": 40})
             ctx.count([proto, "race-run", ctx.seed, k])
             rr = race_report(log)
